@@ -11,13 +11,14 @@ O: (a) probes/codegen_probe.c (asan flavor): compiles every source in-process li
        parameters, strings longer than 64 KiB, arbitrary flag words);
    (b) the three CLIs of the plain flavor, byte comparison of stdout and of the exit status (stderr is not
        compared: the three mains word their diagnostics differently).
-W: repository sources, generator programs (main returns a value in {0,1,3,7,42,255}; one in five gets a global
+W: repository sources (probe; three-way for those that are reproducible), generator programs (main returns a value in {0,1,3,7,42,255}; one in five gets a global
    whose initialiser prints), hand-written programs (initialisers that print, main returning 256 / -1 / 2^32+2,
    failing assertions in main and in an initialiser, > 64 KiB of output).
 """
 import hashlib
 import os
 import re
+import shutil
 
 from .. import build, corpus, sweep
 from ..core import Inconclusive
@@ -209,6 +210,14 @@ shadow twice { assert (== (twice 2) 4) }
     return P
 
 
+# repository programs whose output depends on the command line, the clock, the environment or on files, and those that
+# start other programs, are left out of the three-way comparison (the match is textual and generous: 'time' also drops
+# 'runtime'; a program that is left out here is still round-tripped by the probe)
+REPO_DENY = re.compile(r"argc|argv|get_arg|time|timing|random|rand_|getenv|env_|std/env|clock|getpid|sleep|read_line|input|stdin|"
+                       r"tmp|file_write|write_file|fs_|std/fs|mkdir|remove|pybridge|python|readline|nano_tools|process|spawn|"
+                       r"system|exec|http|socket|curl|sqlite|sdl|opengl|audio|coverage|proptest|unsafe", re.I)
+
+
 def _inject_init(text, k):
     """a global whose initialiser prints, placed in front of main"""
     at = text.rfind("\nfn main() -> int {")
@@ -275,6 +284,8 @@ def probe_part(ctx, asan, sc, items, ev):
                 if int(kv.get("funcs", 0)) >= 1 and int(kv.get("code", 0)) >= 1:
                     hashes.add(kv["hash"])
                 ev["module_imports_hist"]["0" if kv.get("imports") == "0" else "1+"] += 1
+                if files is None:
+                    ev["_repo_imports"][label] = int(kv.get("imports", 0))
                 if len(samples) < 3:
                     samples.append({"source": label, "record": line[line.index("status="):].strip()})
             elif status == "skip":
@@ -375,25 +386,41 @@ class Way:
         self.run = None
 
 
-def three_way(plain, d, main="main.nano"):
-    """-> (run Result | None, {name: Way}).  Every command is run with the program's directory as cwd."""
+def three_way(plain, cwd, main="main.nano", outdir=None, cpu=20):
+    """-> {name: Way}.  Every command runs with cwd (the program's directory, or the copy of the repository's source
+    trees for repository programs); x.nvm and w.bin are written into outdir."""
+    outdir = outdir or cwd
+    x, wb = os.path.join(outdir, "x.nvm"), os.path.join(outdir, "w.bin")
+    for f in (x, wb):
+        try:
+            os.unlink(f)
+        except OSError:
+            pass
     ways = {}
     w = Way("run")
-    w.run = sh([plain.nano_virt, main, "--run"], cwd=d, cpu=20)
+    w.run = sh([plain.nano_virt, main, "--run"], cwd=cwd, cpu=cpu)
     ways["run"] = w
     w = Way("nano_vm")
-    w.build = sh([plain.nano_virt, main, "--emit-nvm", "-o", "x.nvm"], cwd=d, cpu=20)
-    if w.build.rc == 0 and os.path.exists(os.path.join(d, "x.nvm")):
-        w.run = sh([plain.nano_vm, "x.nvm"], cwd=d, cpu=20)
+    w.build = sh([plain.nano_virt, main, "--emit-nvm", "-o", x], cwd=cwd, cpu=20)
+    if w.build.rc == 0 and os.path.exists(x):
+        w.run = sh([plain.nano_vm, x], cwd=cwd, cpu=cpu)
     ways["nano_vm"] = w
     w = Way("wrapper")
     for attempt in range(2):
-        w.build = sh([plain.nano_virt, main, "-o", "w.bin"], cwd=d, cpu=60, env={"NANO_CC": WRAPPER_CC})
-        if w.build.rc == 0 and os.path.exists(os.path.join(d, "w.bin")):
-            w.run = sh([os.path.join(d, "w.bin")], cwd=d, cpu=20)
+        w.build = sh([plain.nano_virt, main, "-o", wb], cwd=cwd, cpu=60, env={"NANO_CC": WRAPPER_CC})
+        if w.build.rc == 0 and os.path.exists(wb):
+            w.run = sh([wb], cwd=cwd, cpu=cpu)
             break
     ways["wrapper"] = w
     return ways
+
+
+def _watchdog(ways):
+    for w in ways.values():
+        for r in (w.run, w.build):
+            if r is not None and (r.timeout or r.cpu_exceeded):
+                return True
+    return False
 
 
 def classify(run, other, pair, init_out):
@@ -439,46 +466,70 @@ CMD_TXT = ("# plain flavor, cwd = this directory\n"
 
 
 def cli_part(ctx, plain, sc, cases, ev):
-    """cases: [(label, files, init_out)]"""
+    """cases: [(label, files, init_out, where)]; where = None (files are written into a fresh directory that is the cwd)
+    or (cwd, relative main path) for a repository program run inside the copy of the repository's source trees"""
     def job(c):
-        idx, (label, files, init_out) = c
+        idx, (label, files, init_out, where) = c
         d = sc.sub("cli/%05d" % idx)
-        for fn, text in files.items():
-            with open(os.path.join(d, fn), "w") as f:
-                f.write(text)
-        ways = three_way(plain, d)
-        if any((w.run is not None and w.run.timeout) or (w.build is not None and w.build.timeout) for w in ways.values()):
-            ways = three_way(plain, d)       # a watchdog is re-tried once before it is believed
-        return c, ways
+        if where is None:
+            for fn, text in files.items():
+                with open(os.path.join(d, fn), "w") as f:
+                    f.write(text)
+            ways = three_way(plain, d)
+            if _watchdog(ways):
+                ways = three_way(plain, d)       # a watchdog is re-tried once before it is believed
+            return c, ways, None
+        cwd, main = where
+        # repository programs are not written for this purpose: one whose own output is not reproducible
+        # (clock, files left behind by the previous run, ...) cannot be compared
+        first = sh([plain.nano_virt, main, "--run"], cwd=cwd, cpu=10)
+        if first.timeout or first.cpu_exceeded:
+            return c, None, "skip:repo-program-over-10s"
+        ways = three_way(plain, cwd, main, outdir=d, cpu=10)
+        if _watchdog(ways):
+            return c, None, "inconclusive:watchdog"
+        r = ways["run"].run
+        if r.out != first.out or r.status != first.status:
+            return c, None, "skip:repo-program-not-reproducible"
+        return c, ways, None
 
     outcomes = {}
     exits = {}
     phashes = set()
     samples = []
     compared = 0
-    for (idx, (label, files, init_out)), ways in pmap(job, list(enumerate(cases))):
+    n_repo = 0
+    for (idx, (label, files, init_out, where)), ways, skipped in pmap(job, list(enumerate(cases))):
         def bump(k):
             outcomes[k] = outcomes.get(k, 0) + 1
-        if any((w.run is not None and w.run.timeout) or (w.build is not None and w.build.timeout) for w in ways.values()):
+        if skipped:
+            bump(skipped)
+            continue
+        if _watchdog(ways):
             bump("inconclusive:watchdog")
             continue
         r = ways["run"].run
         vmw, wrw = ways["nano_vm"], ways["wrapper"]
+        cmd_txt = CMD_TXT
+        if where is not None:
+            cmd_txt = CMD_TXT.replace("main.nano", where[1]).replace(
+                "cwd = this directory", "cwd = a directory holding copies of /repo's tests/ examples/language/ modules/ std/ stdlib/")
         if vmw.run is None:
             # the program is not accepted by the compiler: not a case of this property (but then no way may run it)
             if wrw.run is not None:
                 ctx.violation("cli|wrapper|built-although-emit-nvm-refused", "%s: --emit-nvm fails (%s) but the wrapper was built" % (label, vmw.build.errtext()[-200:]),
-                              dict(files, **{"cmd.txt": CMD_TXT}))
+                              dict(files, **{"cmd.txt": cmd_txt}))
             bump("skip:not-accepted")
             continue
         if wrw.run is None:
             err = wrw.build.errtext()
             cls = "cc" if "native compilation failed" in err else "other"
             ctx.violation("cli|wrapper|build-failed|" + cls, "%s: the module is written as .nvm but `nano_virt -o` cannot produce the wrapper: %s" % (label, err[-600:]),
-                          dict(files, **{"cmd.txt": CMD_TXT, "wrapper-build.stderr": wrw.build.err}))
+                          dict(files, **{"cmd.txt": cmd_txt, "wrapper-build.stderr": wrw.build.err}))
             bump("wrapper-build-failed")
             continue
         compared += 1
+        n_repo += where is not None
         exits[str(r.status)] = exits.get(str(r.status), 0) + 1
         agree = True
         for pair, w in (("nano_vm", vmw), ("wrapper", wrw)):
@@ -489,7 +540,7 @@ def cli_part(ctx, plain, sc, cases, ev):
             key, what = c
             bump(key)
             rf = dict(files)
-            rf.update({"cmd.txt": CMD_TXT, "run.stdout": r.out, "run.stderr": r.err, "run.status": "%s\n" % r.status,
+            rf.update({"cmd.txt": cmd_txt, "run.stdout": r.out, "run.stderr": r.err, "run.status": "%s\n" % r.status,
                        pair + ".stdout": w.run.out, pair + ".stderr": w.run.err, pair + ".status": "%s\n" % w.run.status})
             ctx.violation(key, "%s: `nano_virt --run` vs %s: %s" % (label, "`nano_vm x.nvm`" if pair == "nano_vm" else "the wrapper executable", what), rf)
         if agree:
@@ -501,6 +552,7 @@ def cli_part(ctx, plain, sc, cases, ev):
                             "exit": {"run": r.status, "nano_vm": vmw.run.status, "wrapper": wrw.run.status},
                             "stdout_equal": {"nano_vm": vmw.run.out == r.out, "wrapper": wrw.run.out == r.out}})
     ev["three_way_compared"] = compared
+    ev["three_way_repository_programs_compared"] = n_repo
     ev["three_way_outcomes"] = outcomes
     ev["run_exit_status_histogram"] = dict(sorted(exits.items(), key=lambda kv: int(kv[0])))
     ev["three_way_samples"] = samples
@@ -516,7 +568,7 @@ def run(ctx):
     n_mod = ctx.n(150, 3000)
     n_cli = ctx.n(60, 600)
     n_syn = ctx.n(200, 3000)
-    ev = {"module_imports_hist": {"0": 0, "1+": 0}}
+    ev = {"module_imports_hist": {"0": 0, "1+": 0}, "_repo_imports": {}}
     with Scratch("c10") as sc:
         repo = corpus.repo_sources()
         ctx.rng("repo").shuffle(repo)
@@ -541,14 +593,14 @@ def run(ctx):
                 if t is not None:
                     files = dict(files, **{"main.nano": t})
                     init_out = ("%s %d\n" % (INIT_MARK, k)).encode()
-            gen_cases.append(("generated program %d%s" % (i, " (+printing initialiser)" if init_out else ""), files, init_out))
+            gen_cases.append(("generated program %d%s" % (i, " (+printing initialiser)" if init_out else ""), files, init_out, None))
         ctx.require(unprintable <= max(2, len(batch) // 100), "the generator's printer failed on %d programs" % unprintable)
         ev["generator_programs_unprintable"] = unprintable
-        hand_cases = [("hand-written %s" % name, files, init_out) for name, (files, init_out) in sorted(hand.items())]
+        hand_cases = [("hand-written %s" % name, files, init_out, None) for name, (files, init_out) in sorted(hand.items())]
 
         # ---- (a) probe ------------------------------------------------------------------------------
         items = [(os.path.relpath(p, build.REPO), p, None) for p in repo]
-        for k, (label, files, _) in enumerate(hand_cases + gen_cases):
+        for k, (label, files, _, _w) in enumerate(hand_cases + gen_cases):
             d = sc.sub("src/%05d" % k)
             for fn, text in files.items():
                 with open(os.path.join(d, fn), "w") as f:
@@ -560,12 +612,36 @@ def run(ctx):
 
         # ---- (b) CLI three-way ---------------------------------------------------------------------------
         cases = hand_cases + gen_cases[: n_cli - len(hand_cases)]
+        n_own = len(cases)
+        # repository programs (FFI imports, modules loaded by path: the three mains prepare those differently); they
+        # run inside a copy of the repository's source trees, never in /repo
+        rroot = sc.sub("rroot")
+        for sub in ("tests", "examples/language", "modules", "std", "stdlib"):
+            src = os.path.join(build.REPO, sub)
+            if os.path.isdir(src):
+                shutil.copytree(src, os.path.join(rroot, sub), symlinks=True, dirs_exist_ok=True)
+        imports_of = ev.pop("_repo_imports")
+        cand = []
+        for p in repo:
+            rel = os.path.relpath(p, build.REPO)
+            if rel not in imports_of:
+                continue
+            text = open(p, errors="replace").read()
+            if REPO_DENY.search(text):
+                continue
+            cand.append((0 if imports_of[rel] > 0 else 1, len(cand), rel, text))
+        if ctx.quick():
+            cand = sorted(cand)[:12]
+        repo_cases = [("repository program %s" % rel, {os.path.basename(rel): text}, None, (rroot, rel)) for _, _, rel, text in cand]
+        cases = cases + repo_cases
         n_cmp, phashes = cli_part(ctx, plain, sc, cases, ev)
+        n_repo_cmp = ev["three_way_repository_programs_compared"]
 
         if not ctx.violations:
             ctx.require(n_ok >= 0.8 * len(items), "too few compiler-produced modules round-tripped (%d of %d)" % (n_ok, len(items)))
             ctx.require(n_syn_ok >= 0.95 * n_syn, "too few synthetic modules round-tripped (%d of %d)" % (n_syn_ok, n_syn))
-            ctx.require(n_cmp >= 0.8 * len(cases), "too few programs compared three ways (%d of %d)" % (n_cmp, len(cases)))
+            ctx.require(n_cmp - n_repo_cmp >= 0.8 * n_own, "too few programs compared three ways (%d of %d)" % (n_cmp - n_repo_cmp, n_own))
+            ctx.require(n_repo_cmp >= 0.5 * len(repo_cases), "too few repository programs compared three ways (%d of %d)" % (n_repo_cmp, len(repo_cases)))
             ctx.require(ev["module_imports_hist"]["1+"] >= 5, "too few modules with an import table")
             nonzero = sum(v for k, v in ev["run_exit_status_histogram"].items() if k != "0")
             ctx.require(nonzero >= 5, "too few programs with a non-zero exit status")
@@ -578,6 +654,7 @@ def run(ctx):
                     "SHA-256 hashes of the source files of programs compared three ways that print something or exit non-zero",
             "modules_from_sources": len(items),
             "three_way_programs": len(cases),
+            "three_way_repository_programs": len(repo_cases),
         }
         cov.update(ev)
         cov["samples"] = ev["module_samples"] + ev["synthetic_samples"][:2] + ev["three_way_samples"]
@@ -586,6 +663,8 @@ def run(ctx):
             "repository's own objects (asan flavor); the in-memory module is the one codegen_compile returned, untouched",
             "sources the front end does not accept are not cases of this property (counted under sources_not_accepted)",
             "stdout and exit status are compared, stderr is not; all runs get /dev/null as stdin",
+            "repository programs are compared only when two consecutive --run executions print the same (they are not written to be "
+            "reproducible) and when their text does not mention the command line, clock, environment or files",
             "the wrapper is compiled with NANO_CC='%s' because the hook-enabled tree changes sizeof(VmState)" % WRAPPER_CC,
             "a way that dies from the same signal in all runs is not compared on stdout (buffered output is lost)",
         ])
